@@ -115,6 +115,33 @@ CHECKS = {
              "layer pair is traced with shared symbolic input and weights: identical terms prove bit-identical behaviour for every value.",
         note="Layer classes that cannot be constructed under the pinned Keras 3 are outside the claim; graph-mode predict is not what is compared.",
         ref="DESIGN.md section 3 C13"),
+    "C04": dict(
+        level="model_checking", engine="tfg2smt",
+        technique="bounded SMT (QF_BVFP) for the element-wise codes and for sign/finiteness/power-of-two facts about the scale; term structure for scale groups; "
+                  "z3 real arithmetic for the least-squares identity with the graph's code terms as cut points",
+        text="Element-wise: for every float32 input in the exactness region the output is scale*code with the sign / threshold rule.  "
+             "Data-dependent scale: the traced graph is interpreted over arrays of named scalar terms (rank 1..4, <= 8 elements): one scale per "
+             "configured group is decided on the terms, the least-squares optimum over the reals, scale >= 0 / finite / exact power of two "
+             "within bounds as floating-point queries on the smallest shapes.",
+        note="The least-squares clause is a statement over the reals (float rounding of the quotient is outside the claim); ternary's data-dependent "
+             "thresholds are cut at the emitted codes.",
+        ref="DESIGN.md section 3 C04"),
+    "C05": dict(
+        level="model_checking", engine="tfg2smt",
+        technique="bounded SMT (QF_BVFP) with a cut at the exposed scale: final stage for every power-of-two scale (symbolic second input), scale lemmas on two-element "
+                  "channels, induction over the refinement rounds with the previous working scale as cut point",
+        text="(F) out = scale x in-range integer code for every power-of-two scale 2^j, |j|<=20, through the real frozen-scale branch; (A) 'auto': finite, "
+             "positive scale, channel maximum not clipped; (P) 'auto_po2': exposed scale is an exact power of two within the exponent bounds, proved "
+             "round by round with an invariant; (S) one scale per channel/group on the term structure.",
+        note="The scale-equivariance clause is NOT covered.  The auto_po2 final-stage claim is conditional on |x| < 2^20 units of the chosen scale.",
+        ref="DESIGN.md section 3 C05"),
+    "C19": dict(
+        level="model_checking", engine="pysym",
+        technique="symbolic execution of get_operation_count / energy-sum extraction / memory energy functions on z3-backed geometry and energies (NIA/NRA queries)",
+        text="get_operation_count runs on stand-in layers with symbolic geometry and the solver decides equality with the loop-nest count for all "
+             "geometries in the bounds; extract_energy_sum/profile run on a symbolic energy dictionary; memory energies are non-negative.",
+        note="QTools.pe()/energy_estimate end to end and extract_model_operations cannot run under the pinned Keras 3 and are outside the claim.",
+        ref="DESIGN.md section 3 C19"),
 }
 
 NOT_YET = "check not built yet in this revision (see DESIGN.md section 7 build order)"
